@@ -9,7 +9,11 @@ import (
 	"github.com/bufbuild/protocompile"
 	"github.com/bufbuild/protocompile/linker"
 	"github.com/bufbuild/protocompile/reporter"
+	"google.golang.org/protobuf/encoding/prototext"
 	"google.golang.org/protobuf/proto"
+	"google.golang.org/protobuf/reflect/protoreflect"
+	"google.golang.org/protobuf/reflect/protoregistry"
+	"google.golang.org/protobuf/types/dynamicpb"
 	"google.golang.org/protobuf/types/descriptorpb"
 
 	"github.com/bufbuild/protocompile/protoutil"
@@ -44,7 +48,7 @@ func sortedKeys[V any](m map[string]V) []string {
 }
 
 // fdProto returns the FileDescriptorProto of a compiled file.
-func fdProto(f linker.File) *descriptorpb.FileDescriptorProto {
+func fdProto(f protoreflect.FileDescriptor) *descriptorpb.FileDescriptorProto {
 	return protoutil.ProtoFromFileDescriptor(f)
 }
 
@@ -63,4 +67,51 @@ func showFiles(files map[string]string) string {
 		fmt.Fprintf(&sb, "--- %s ---\n%s\n", k, files[k])
 	}
 	return sb.String()
+}
+
+func textOf(m proto.Message) string {
+	return prototextFormat(m)
+}
+
+func prototextFormat(m proto.Message) string { return prototext.Format(m) }
+
+type protoreflectMessage = protoreflect.Message
+
+// extTypes registers every extension declared in the given files (dynamic types), so that
+// options can be decoded with extensions as known fields on both sides of a comparison.
+func extTypes(files map[string]protoreflect.FileDescriptor) *protoregistry.Types {
+	types := &protoregistry.Types{}
+	var msgs func(ms protoreflect.MessageDescriptors)
+	exts := func(xs protoreflect.ExtensionDescriptors) {
+		for i := 0; i < xs.Len(); i++ {
+			_ = types.RegisterExtension(dynamicpb.NewExtensionType(xs.Get(i)))
+		}
+	}
+	msgs = func(ms protoreflect.MessageDescriptors) {
+		for i := 0; i < ms.Len(); i++ {
+			exts(ms.Get(i).Extensions())
+			msgs(ms.Get(i).Messages())
+		}
+	}
+	for _, k := range sortedKeys(files) {
+		exts(files[k].Extensions())
+		msgs(files[k].Messages())
+	}
+	return types
+}
+
+// redecode re-parses a descriptor proto with the given extension types known.
+func redecode(fd *descriptorpb.FileDescriptorProto, types *protoregistry.Types) *descriptorpb.FileDescriptorProto {
+	out := &descriptorpb.FileDescriptorProto{}
+	if err := (proto.UnmarshalOptions{Resolver: types}).Unmarshal(detBytes(fd), out); err != nil {
+		panic(err)
+	}
+	return out
+}
+
+// semanticEqual compares two descriptor protos as messages after decoding both against the same
+// schema (extension option values become known fields on both sides; the order in which different
+// unknown fields were serialized is irrelevant).
+func semanticEqual(got, want *descriptorpb.FileDescriptorProto, types *protoregistry.Types) bool {
+	return proto.Equal(redecode(got, types), redecode(want, types))
 }
